@@ -49,8 +49,8 @@ def budget(tier: str) -> dict:
 @st.composite
 def _case(draw):
     d = gen.D(draw)
-    kind = d.weighted([(3, "eol"), (2, "nul"), (3, "leading"), (5, "structural"), (2, "seg3")])
-    cfg = d.pick(FIXED_CFGS) if d.chance(0.7) else gen.config_d(d)
+    kind = d.weighted([(3, "eol"), (2, "nul"), (3, "leading"), (5, "structural"), (2, "seg3"), (3, "quoted-list")])
+    cfg = gen.maybe_late(d, d.pick(FIXED_CFGS)) if d.chance(0.7) else gen.config_d(d)
     if kind == "eol":
         src = gen.any_doc_d(d).replace("\r", "")
         n = src.count("\n")
@@ -79,6 +79,20 @@ def _case(draw):
                         ln = d.pick(opts) + ln[nsp:]
             out.append(ln)
         return {"kind": kind, "src": "\n".join(out), "cfg": cfg}
+    if kind == "quoted-list":
+        # a list inside a block quote whose lines carry quote prefixes of different widths; continuation lines after
+        # a blank line sit at, just below or just above the item's content indent
+        lines = []
+        ordered = d.chance(0.4)
+        for it in range(d.i(2, 3)):
+            marker = f"{it + 1}." if ordered else d.pick(["-", "*"])
+            bl = d.i(1, 4)
+            lines.append(marker + " " * bl + d.pick(["a", "b c", "x"]))
+            if d.chance(0.6):
+                lines.append("")
+                lines.append(" " * max(0, len(marker) + bl + d.pick([0, 0, -1, 1])) + d.pick(["c", "- n", "d e"]))
+        src = "\n".join(d.pick([">", "> ", " > ", ">  ", "  >", "> > ", ">> "]) + ln for ln in lines) + "\n"
+        return {"kind": "structural", "src": src, "cfg": cfg, "spell": [d.i(0, 10**6) for _ in range(8)], "all_runs": True}
     if kind == "seg3":
         segs = [[d.i(0, 3), d.pick(MARKERS), d.i(1, 4)] for _ in range(3)]
         return {"kind": "segments", "segs": segs, "leaf": d.pick(LEAVES), "spell": [d.i(0, 7) for _ in range(6)], "cfg": C.simple("commonmark")}
@@ -387,7 +401,17 @@ def check(case) -> Res:
     sp = case.get("spell") or [0]
     lines = src.split("\n")
     chosen = {}
-    for j in range(1 + sp[0] % 3):
+    if case.get("all_runs"):
+        # respell one structural run on every line that has one
+        by_line: dict = {}
+        for li, s_, e_ in runs:
+            by_line.setdefault(li, []).append((s_, e_))
+        for n_, (li, rs) in enumerate(sorted(by_line.items())):
+            s_, e_ = rs[sp[n_ % len(sp)] % len(rs)]
+            opts = [o for o in gen.tab_spellings(s_, e_) if "\t" in o]
+            if opts and sp[(n_ + 3) % len(sp)] % 4:
+                chosen[li] = (s_, e_, opts[sp[(n_ + 1) % len(sp)] % len(opts)])
+    for j in range(0 if case.get("all_runs") else 1 + sp[0] % 3):
         li, s, e = runs[sp[(1 + 2 * j) % len(sp)] % len(runs)]
         if li in chosen:
             continue
